@@ -972,7 +972,7 @@ func c20Atomic(c *an.Ctx, ip *an.LockIP, pk string, fns []*ssa.Function, guards 
 				n++
 				c.Check(len(bad) == 0, "O6", "R-PAIR", an.FuncName(fn), "rmw:"+g.typ+"."+g.field, st.Pos(),
 					fmt.Sprintf("%s.%s is replaced in the critical section of %s in which it was read (%d read(s))", g.typ, g.field, lp, k),
-					fmt.Sprintf("%s.%s is read at %s and replaced at %s outside one critical section of %s: a value stored concurrently in between (a flushed write, an added entry) is overwritten by one computed from the stale read", g.typ, g.field, strings.Join(bad, ", "), c.P.Pos(st.Pos()), lp))
+					fmt.Sprintf("%s.%s is read at %s and replaced at %s outside one critical section of %s: a value stored concurrently in between (e.g. a flushed write, an added entry, a re-armed timer) is overwritten by one computed from the stale read", g.typ, g.field, strings.Join(bad, ", "), c.P.Pos(st.Pos()), lp))
 			}
 		}
 		// getters: functions returning a value derived from the field of a parameter-rooted object
